@@ -927,6 +927,18 @@ impl Session {
     }
 }
 
+impl Drop for Session {
+    /// Dropping a session that still has an open transaction rolls that transaction back,
+    /// exactly as an explicit [`rollback`](Self::rollback) would: its uncommitted node and edge
+    /// versions and its pending RDF operations are discarded and the transaction manager marks
+    /// it aborted, so it no longer counts as active.
+    fn drop(&mut self) {
+        if self.current_tx.is_some() {
+            let _ = self.rollback();
+        }
+    }
+}
+
 #[cfg(test)]
 mod tests {
     use crate::database::GrafeoDB;
@@ -939,6 +951,20 @@ mod tests {
         let id = session.create_node(&["Person"]);
         assert!(id.is_valid());
         assert_eq!(db.node_count(), 1);
+    }
+
+    #[test]
+    fn test_session_drop_rolls_back_open_transaction() {
+        let db = GrafeoDB::new_in_memory();
+        {
+            let mut session = db.session();
+            session.begin_tx().unwrap();
+            let id = session.create_node(&["Person"]);
+            assert!(session.get_node(id).is_some());
+            // dropped without commit or rollback
+        }
+        let observer = db.session();
+        assert!(observer.get_node(grafeo_common::types::NodeId::new(0)).is_none());
     }
 
     #[test]
